@@ -32,11 +32,29 @@ func H_C05_realroot_MODELNAME() {
 	c05cellsx_MODELNAME(2, 2, 2, 1, true)
 }
 
+// H_C05_concrete_MODELNAME: Sacramento and Storage only (whose kernels are summarised in the
+// harnesses above, so that a conflict INSIDE the kernel would not be seen there): the same run
+// with the REAL kernel on concrete parameter, input and state values (3 cells, 2 parameter sets,
+// 2 input blocks, 2 timesteps); the footprints of one concrete run are still checked for every
+// interleaving.  A no-op for the other models.
+//vsym:prop=C05 tier=quick ints=int floats=real timeout=60 wall=300 unwind=400
+func H_C05_concrete_MODELNAME() {
+	if "MODELNAME" != "Sacramento" && "MODELNAME" != "Storage" {
+		vsym.Reach("kernel-already-exercised-symbolically")
+		return
+	}
+	c05cellsy_MODELNAME(3, 2, 2, 2, false, true)
+}
+
 func c05cells_MODELNAME(N, nSets, nBlocks, T int) { c05cellsx_MODELNAME(N, nSets, nBlocks, T, false) }
 
 func c05cellsx_MODELNAME(N, nSets, nBlocks, T int, realRoot bool) {
+	c05cellsy_MODELNAME(N, nSets, nBlocks, T, realRoot, false)
+}
+
+func c05cellsy_MODELNAME(N, nSets, nBlocks, T int, realRoot bool, concrete bool) {
 	name := "MODELNAME"
-	if wrHeavy(name) {
+	if !concrete && wrHeavy(name) {
 		vsym.Note("kernel of " + name + " is outside the reach of the executor within the budget: this wrapper is not exercised with its own kernel")
 		vsym.Reach("skipped-heavy-kernel")
 		return
@@ -63,6 +81,32 @@ func c05cellsx_MODELNAME(N, nSets, nBlocks, T int, realRoot bool) {
 	}
 	states := wrStates(name, w, params, N, nSets)
 	wrConstrainData(name, inputs, states)
+	if concrete {
+		// concrete values everywhere (table rows of Storage are already concrete)
+		for r := 0; r < w.rows; r++ {
+			for c := 0; c < nSets; c++ {
+				if name == "Sacramento" {
+					params.Set2(r, c, 0.3+0.05*float64(c))
+				}
+			}
+		}
+		w.m.ApplyParameters(params)
+		for b := 0; b < nBlocks; b++ {
+			for i := 0; i < nI; i++ {
+				for t := 0; t < T; t++ {
+					inputs.Set3(b, i, t, 0.5+0.25*float64(b))
+				}
+			}
+		}
+		for c := 0; c < states.Len(0); c++ {
+			for st := 0; st < states.Len(1); st++ {
+				states.Set2(c, st, 0.125)
+			}
+			if name == "Storage" {
+				states.Set2(c, 0, 500000)
+			}
+		}
+	}
 	outputs := data.NewArray3DFloat64(N, nO, T)
 	vsym.LogStart()
 	w.m.Run(inputs, states, outputs)
